@@ -20,7 +20,7 @@ def run_case(case, taps='all'):
         return M.run_mux(case['pipe'], case['src'], timescale=case.get('timescale'), taps=taps)
     if mode == 'src':
         return M.run_src(case['pipe'], case['src'], complete=case.get('complete', True),
-                         timescale=case.get('timescale'), taps=taps)
+                         timescale=case.get('timescale'), taps=taps, root=case.get('root', 'store'))
     raise C.MachineryError('unknown mode %r' % mode)
 
 
@@ -94,6 +94,7 @@ def judge(V, cases, relevant, stats, family='', keep_traces=None):
                          'pipe': json.dumps(tr['pipe'], sort_keys=True),
                          'mode': tr['mode'], 'src': tr['src'],
                          'timescale': cases[i].get('timescale'), 'multi': cases[i].get('multi'),
+                         'root': cases[i].get('root', 'store'),
                          'clauses': ['%s:%s' % pn for pn in names]},
                         '+'.join(sorted({n for _, n in mine})),
                         detail='first rejected at source step %s' % step)
@@ -115,6 +116,7 @@ def judge(V, cases, relevant, stats, family='', keep_traces=None):
             V.violation({'family': family, 'ops': ' '.join(op_names(tr['pipe'])),
                          'pipe': json.dumps(tr['pipe'], sort_keys=True), 'mode': tr['mode'],
                          'src': tr['src'], 'timescale': c.get('timescale'), 'untapped': True,
+                         'multi': c.get('multi'), 'root': c.get('root', 'store'),
                          'clauses': ['untapped-differs']}, 'untapped-differs',
                         detail='without inner taps: end=%s out=%s' % (u['end'], json.dumps(ends(u)[0])[:300]))
             stats['untapped_differs'] = stats.get('untapped_differs', 0) + 1
@@ -130,6 +132,7 @@ def replay(prop, path, relevant):
             'timescale': w.get('timescale')}
     if w.get('multi'):
         case['multi'] = w['multi']
+    case['root'] = w.get('root', 'store')
     tr = run_case(case)
     if w.get('untapped'):
         u = run_case(case, taps='ends')
